@@ -125,22 +125,137 @@ Proof.
   - exact Hsc.
   - exists e. intros f. rewrite block_string_value_agree. specialize (He f). rewrite <- app_assoc in He. exact He.
 Qed.
+
+(* ---- bodies in general: what the scanner reads between the triple quotes --- *)
+(* [raw] is the content of the block string whose text between the triple
+   quotes is [body] (escaped triple quotes unescaped), whatever follows *)
+Definition scan_body (body raw : str) : Prop :=
+  (forall rest, block_body (body ++ 34 :: 34 :: 34 :: rest) = Some (raw, rest)) /\ Forall SourceCharacter raw.
+
+Lemma noquote_scan body : noquote_body body -> scan_body body body.
+Proof. intros (Hq & Hl & Hsc). split; [intros rest; apply bb_noquote; assumption|exact Hsc]. Qed.
+
+Lemma lex_description_raw body raw rest pos :
+  scan_body body raw ->
+  exists e, forall f,
+    lex_from (S f) (34 :: 34 :: 34 :: body ++ 34 :: 34 :: 34 :: rest) pos
+    = LT (PTok KBlockString (SdlRoundtripSpec.block_string_value raw) pos e) :: lex_from f rest e.
+Proof.
+  intros (Hbb & Hsc).
+  destruct (lex_block_raw (body ++ [34; 34; 34]) raw rest pos) as (e & He).
+  - rewrite <- app_assoc. apply Hbb.
+  - exact Hsc.
+  - exists e. intros f. rewrite block_string_value_agree. specialize (He f). rewrite <- app_assoc in He. exact He.
+Qed.
+
+(* the printed body [body] is read back as the description [desc] *)
+Definition desc_body_ok (body desc : str) : Prop :=
+  exists raw, scan_body body raw /\ SdlRoundtripSpec.block_string_value raw = desc.
+
+Lemma noquote_body_ok body desc :
+  noquote_body body -> SdlRoundtripSpec.block_string_value body = desc -> desc_body_ok body desc.
+Proof. intros Hb Hv. exists body. split; [apply noquote_scan; exact Hb|exact Hv]. Qed.
+
+(* bodies with double quotes: the text with its triple quotes escaped, not
+   ending with a double quote or a backslash (lex_escaped of C03) *)
+Lemma lead_q_snoc (w : str) (c : char) : c <> 34 -> lead_q (w ++ [c]) = lead_q w.
+Proof.
+  intros Hc. induction w as [|a w IH]; cbn [app lead_q].
+  - destruct (N.eqb_spec c 34); [congruence|reflexivity].
+  - rewrite IH. reflexivity.
+Qed.
+
+Lemma escape3_snoc : forall n (w : str) (c : char), (length w <= n)%nat -> c <> 34 -> escape3 (w ++ [c]) = escape3 w ++ [c].
+Proof.
+  induction n as [|n IH]; intros w c Hn Hc.
+  - destruct w; [|simpl in Hn; lia]. exact (esc_nonq c [] Hc).
+  - destruct w as [|a r1]; [exact (esc_nonq c [] Hc)|].
+    destruct (le_lt_dec 3 (lead_q (a :: r1))) as [G|G].
+    + apply lead_q_ge3 in G. destruct G as [r3 E]. rewrite E.
+      assert (Hl : (length r3 <= n)%nat).
+      { clear -E Hn. inversion E; subst. cbn [length] in Hn. clear E. apply le_S_n in Hn. apply Nat.le_trans with (2 := Hn). apply Nat.le_trans with (S (length r3)); apply Nat.le_succ_diag_r. }
+      pose proof (IH r3 c Hl Hc) as H3.
+      change (92 :: 34 :: 34 :: 34 :: escape3 (r3 ++ [c]) = 92 :: 34 :: 34 :: 34 :: (escape3 r3 ++ [c])).
+      f_equal. f_equal. f_equal. f_equal. exact H3.
+    + assert (G' : (lead_q (a :: (r1 ++ [c])) < 3)%nat).
+      { pose proof (lead_q_snoc (a :: r1) c Hc) as Hq. cbn [app] in Hq. rewrite Hq. exact G. }
+      assert (Hl : (length r1 <= n)%nat) by (simpl in Hn; lia).
+      etransitivity; [exact (esc_cons a (r1 ++ [c]) G')|].
+      etransitivity; [|symmetry; exact (f_equal (fun l => l ++ [c]) (esc_cons a r1 G))].
+      cbn [app]. f_equal. exact (IH r1 c Hl Hc).
+Qed.
+
+Lemma escape_triple_cons (a : char) (r1 : str) : (lead_q (a :: r1) < 3)%nat ->
+  escape_triple (a :: r1) = a :: escape_triple r1.
+Proof.
+  intros G.
+  change (escape_triple (a :: r1)) with
+    (match a :: r1 with
+     | 34 :: 34 :: 34 :: r => 92 :: 34 :: 34 :: 34 :: escape_triple r
+     | c' :: r => c' :: escape_triple r
+     | [] => []
+     end).
+  destruct (N.eqb_spec a 34) as [->|Ha].
+  - destruct r1 as [|b r2]; [reflexivity|].
+    destruct (N.eqb_spec b 34) as [->|Hb].
+    + destruct r2 as [|c r3]; [reflexivity|].
+      destruct (N.eqb_spec c 34) as [->|Hc]; [cbn in G; lia|].
+      destruct c as [|p]; [reflexivity|]. do 6 (destruct p as [p|p|]; try reflexivity). congruence.
+    + destruct b as [|p]; [reflexivity|]. do 6 (destruct p as [p|p|]; try reflexivity). congruence.
+  - destruct a as [|p]; [reflexivity|]. do 6 (destruct p as [p|p|]; try reflexivity). congruence.
+Qed.
+
+Lemma escape_triple_escape3 : forall n (s : str), (length s <= n)%nat -> escape_triple s = escape3 s.
+Proof.
+  induction n as [|n IH]; intros s Hn; [destruct s; [reflexivity|simpl in Hn; lia]|].
+  destruct s as [|a r1]; [reflexivity|].
+  destruct (le_lt_dec 3 (lead_q (a :: r1))) as [G|G].
+  - apply lead_q_ge3 in G. destruct G as [r3 E]. rewrite E.
+    assert (Hl : (length r3 <= n)%nat).
+    { clear -E Hn. inversion E; subst. cbn [length] in Hn. clear E. apply le_S_n in Hn. apply Nat.le_trans with (2 := Hn). apply Nat.le_trans with (S (length r3)); apply Nat.le_succ_diag_r. }
+    change (92 :: 34 :: 34 :: 34 :: escape_triple r3 = 92 :: 34 :: 34 :: 34 :: escape3 r3).
+    f_equal. f_equal. f_equal. f_equal. exact (IH r3 Hl).
+  - assert (Hl : (length r1 <= n)%nat) by (simpl in Hn; lia).
+    etransitivity; [exact (escape_triple_cons a r1 G)|].
+    etransitivity; [|symmetry; exact (esc_cons a r1 G)].
+    f_equal. exact (IH r1 Hl).
+Qed.
+
+Lemma escaped_scan (w : str) :
+  w <> [] -> last w 0 <> 34 -> last w 0 <> 92 -> Forall SourceCharacter w ->
+  scan_body (escape_triple w) w.
+Proof.
+  intros Hne H34 H92 Hsc. split; [|exact Hsc]. intros rest.
+  destruct (exists_last Hne) as (v & c & ->). rewrite last_last in H34, H92.
+  assert (He : escape_triple (v ++ [c]) = escape3 v ++ [c]).
+  { etransitivity; [exact (escape_triple_escape3 _ (v ++ [c]) (le_n _))|exact (escape3_snoc _ v c (le_n _) H34)]. }
+  assert (Hc : (c =? 34) = false) by (apply N.eqb_neq; exact H34).
+  assert (Ht : block_body (c :: 34 :: 34 :: 34 :: rest) = Some ([c], rest)).
+  { etransitivity; [apply bb_char|reflexivity].
+    - cbn [lead_q]. rewrite Hc. lia.
+    - intros ->. congruence. }
+  assert (Hq : lead_q (c :: 34 :: 34 :: 34 :: rest) = 0%nat) by (cbn [lead_q]; rewrite Hc; reflexivity).
+  pose proof (lex_escaped (length v) v (c :: 34 :: 34 :: 34 :: rest) [c] rest (le_n _) Hq Ht) as H.
+  etransitivity; [|exact H]. f_equal.
+  etransitivity; [exact (f_equal (fun l => l ++ 34 :: 34 :: 34 :: rest) He)|].
+  rewrite <- app_assoc. reflexivity.
+Qed.
 Local Close Scope N_scope.
 
 (* ---- a description in front of a definition ------------------------------ *)
 Definition Q3s : str := [34; 34; 34]%N.
 
 Lemma desc_prefix_lexok body desc formatted (P : list ptok -> Prop) :
-  noquote_body body -> SdlRoundtripSpec.block_string_value body = desc -> LexOK formatted P ->
+  desc_body_ok body desc -> LexOK formatted P ->
   LexOK ((Q3s ++ body ++ Q3s) ++ [10%N] ++ formatted)
         (fun ts => exists dsts rest, ts = dsts ++ rest
                     /\ D_description true dsts (Some (StrVal desc true None)) /\ P rest).
 Proof.
-  intros Hb Hv HF.
+  intros (raw & Hb & Hv) HF.
   apply (lexok_app (Q3s ++ body ++ Q3s) ([10%N] ++ formatted)
            (fun ts => D_description true ts (Some (StrVal desc true None))) P).
   - apply lexok_single; [discriminate|]. intros rest pos Hr.
-    destruct (lex_description_text body rest pos Hb) as (e & He).
+    destruct (lex_description_raw body raw rest pos Hb) as (e & He).
     eexists _, e. split; [|intros f; specialize (He f); unfold Q3s; rewrite <- !app_assoc; cbn [app] in *; exact He].
     rewrite Hv. apply (DDesc_block true (PTok KBlockString desc pos e)). reflexivity.
   - apply lexok_lead; [repeat constructor|assumption].
